@@ -80,18 +80,15 @@ static inline void vc_sample(const char *fmt, ...) {
     vc_nsamples++;
     va_list ap; va_start(ap, fmt); printf("SAMPLE\t"); vprintf(fmt, ap); printf("\n"); va_end(ap);
 }
-/* distinct outcomes: open hash set of 64-bit hashes; first few are printed verbatim */
-static uint64_t *vc_oc; static size_t vc_occap, vc_ocn;
+/* distinct outcomes: fixed open hash set of 64-bit hashes (no allocation: the harness may be counting them);
+ * the first few are printed verbatim */
+#define VC_OCCAP (1 << 17)
+static uint64_t vc_oc[VC_OCCAP]; static size_t vc_ocn;
 static inline int vc_outcome(const char *s) {
     uint64_t h = vc_hash(s, strlen(s)) | 1;
-    if (!vc_oc) { vc_occap = 1 << 16; vc_oc = calloc(vc_occap, 8); }
-    if (vc_ocn * 2 > vc_occap) {
-        size_t nc = vc_occap * 4; uint64_t *n = calloc(nc, 8);
-        for (size_t i = 0; i < vc_occap; i++) if (vc_oc[i]) { size_t j = vc_oc[i] & (nc - 1); while (n[j]) j = (j + 1) & (nc - 1); n[j] = vc_oc[i]; }
-        free(vc_oc); vc_oc = n; vc_occap = nc;
-    }
-    size_t j = h & (vc_occap - 1);
-    while (vc_oc[j]) { if (vc_oc[j] == h) return 0; j = (j + 1) & (vc_occap - 1); }
+    if (vc_ocn * 2 > VC_OCCAP) return 0;
+    size_t j = h & (VC_OCCAP - 1);
+    while (vc_oc[j]) { if (vc_oc[j] == h) return 0; j = (j + 1) & (VC_OCCAP - 1); }
     vc_oc[j] = h; vc_ocn++;
     if (vc_ocn <= 24) printf("OUTCOME\t%s\n", s);
     return 1;
